@@ -200,7 +200,7 @@ Definition db_can_drain_to_window (b : dbuf) : option Z :=
 (** remove the [n] oldest bytes, feeding them to the hasher: returns (bytes, buffer) *)
 Definition db_take_front (b : dbuf) (n : Z) : list Z * dbuf :=
   let keep := db_len b - n in
-  let out := rev (drop_z keep (db_rev b)) in
+  let out := rev' (drop_z keep (db_rev b)) in
   (out, {| db_rev := take_z keep (db_rev b); db_len := keep; db_dict := db_dict b; db_window := db_window b;
            db_total_out := db_total_out b; db_hashed_rev := rev_append out (db_hashed_rev b) |}).
 
@@ -317,7 +317,7 @@ Definition fdec_read (d : fdec) (target_len : Z) : list Z * fdec :=
 
 (** low 32 bits of the hash of the delivered bytes: the hash function itself is a parameter of the theorems *)
 Definition fdec_hashed (d : fdec) : list Z :=
-  match fd_state d with None => [] | Some s => rev (db_hashed_rev (st_buf s)) end.
+  match fd_state d with None => [] | Some s => rev' (db_hashed_rev (st_buf s)) end.
 
 (** *** decode_from_to: returns (decoder, bytes consumed from [source], bytes written to target) *)
 Fixpoint dft_loop (fuel : nat) (s : fstate) (src : list Z) : res (fstate * list Z) :=
@@ -392,7 +392,7 @@ Fixpoint decode_all_outer (fuel : nat) (d : fdec) (input : list Z) (room : Z) (w
   | O => RPanic "fuel"
   | S f =>
       match input with
-      | [] => ROk (d, rev written_rev)
+      | [] => ROk (d, rev' written_rev)
       | _ =>
           match frame_front input (fd_max_window d) with
           | inr (_, len) =>
